@@ -42,9 +42,11 @@ Proof. intros Hs. pose proof (ExpPoly.natfact_pos n) as [m Hm]. pose proof (ExpP
   - apply eqae_all. intros t. cbv beta. field. exact Hn.
   - apply eqae_all. intros f. cbv beta. unfold tpi, two. unfold fdiv. rewrite !(Fdiv_def (fth K)). assert (T : forall x : K, 1 * x = x) by (intros; ring). rewrite T. reflexivity. Qed.
 Lemma o_texpu_1 f : evq (o_texpu 1 1) f = fnat (natfact 1) / fpow (w f - rho 3%nat) 2.
-Proof. oevs. cbn [natfact fnat Nat.mul Nat.add]. unfold fdiv. rewrite !(Fdiv_def (fth K)). ring. Qed.
+Proof. cbv beta. oevs. cbn [natfact fnat Nat.mul Nat.add]. unfold fdiv. rewrite !(Fdiv_def (fth K)).
+  assert (Z : forall x c : K, x + - c = x - c) by (intros; ring). rewrite !Z. ring. Qed.
 Lemma o_texpu_2 f : evq (o_texpu 2 2) f = fnat (natfact 2) / fpow (w f - rho 3%nat) 3.
-Proof. oevs. cbn [natfact fnat Nat.mul Nat.add]. unfold fdiv. rewrite !(Fdiv_def (fth K)). ring. Qed.
+Proof. cbv beta. oevs. cbn [natfact fnat Nat.mul Nat.add]. unfold fdiv. rewrite !(Fdiv_def (fth K)).
+  assert (Z : forall x c : K, x + - c = x - c) by (intros; ring). rewrite !Z. ring. Qed.
 
 (* the one-sided pieces of e^{-a|t|}:  e^{-a t} u(t)  and its reversal  e^{a t} u(-t) *)
 Let P1 (Hs : c_stable C (- a)) := FP_expu K C (- a) Hs.
@@ -58,10 +60,10 @@ Proof. intros Ha X Y H. nzc.
 
 Lemma den_fact (W : K) : a * a + W * W = (j * W + a) * (- (j * W) + a).
 Proof. transitivity (a * a - (j * j) * (W * W)); [rewrite (c_j2 C); ring | ring]. Qed.
-Ltac den W := replace (a * (a * 1) + W * (W * 1)) with ((j * W + a) * (- (j * W) + a)) by (rewrite <- den_fact; ring).
+Ltac den W := replace (a * (a * 1) + W * (W * 1)) with ((j * W + a) * (- (j * W) + a)) by (symmetry; transitivity (a * a + W * W); [ring | apply den_fact]).
 Ltac pre f H1 H2' :=
-  assert (D1 : j * ((1 + 1) * pi * f) + a <> 0) by (intro Z; apply H1; rewrite <- Z; ring);
-  assert (D2 : - (j * ((1 + 1) * pi * f)) + a <> 0) by (intro Z; apply H2'; rewrite <- Z; ring).
+  assert (D1 : j * ((1 + 1) * pi * f) + a <> 0) by (let Hz := fresh "Hz" in intro Hz; apply H1; rewrite <- Hz; ring);
+  assert (D2 : - (j * ((1 + 1) * pi * f)) + a <> 0) by (let Hz := fresh "Hz" in intro Hz; apply H2'; rewrite <- Hz; ring).
 
 (* e^{-a|t|} = e^{-at}u(t) + e^{at}u(-t)  <->  2a/(a^2 + (2 pi f)^2) *)
 Theorem os_sound_twoexp : a <> 0 -> c_stable C (- a) ->
@@ -104,10 +106,10 @@ Proof. intros Ra Ha Hab. nzc.
   assert (Ri : c_isR C (1 / a)) by (apply (c_isR_inv C), Ra).
   assert (Hi : 1 / a <> 0) by (apply div_nz; [apply one_nz | exact Ha]).
   eapply FP_exteq; [ | | exact (FP_scaling K C (1 / a) _ _ Ri Hi (FP_gauss K C))]; intros; cbv beta.
-  - f_equal. field. exact Ha.
+  - apply f_equal. field. exact Ha.
   - rewrite (c_rabs_inv C a Ra Ha), Hab. oevs.
-    replace (- pi * (f / (1 / a)) * (f / (1 / a))) with (- (pi * (a * (a * 1)) * (f * (f * 1)))) by (field; exact Ha).
-    field. exact Ha. Qed.
+    replace (- pi * (f / (1 / a)) * (f / (1 / a))) with (- (pi * (a * (a * 1)) * (f * (f * 1)))) by (field; nz).
+    field. nz. Qed.
 Theorem os_sound_gauss : c_isR C a -> a <> 0 -> c_rabs C a = a ->
   c_isR C (c_sqrtpi C) -> c_rabs C (c_sqrtpi C) = c_sqrtpi C ->
   FP (fun t => E (- ((t / a) * (t / a)))) (evq o_gauss).
@@ -119,10 +121,11 @@ Proof. intros Ra Ha Hab Rs Hsab. nzc. set (sp := c_sqrtpi C) in *.
   assert (Hk : k <> 0) by (apply mul_nz; assumption).
   assert (Ri : c_isR C (1 / k)) by (apply (c_isR_inv C), Rk).
   assert (Hi : 1 / k <> 0) by (apply div_nz; [apply one_nz | exact Hk]).
+  assert (Hrk : c_rabs C k = k) by (unfold k; rewrite (c_rabs_mul C _ _ Ra Rs), Hab, Hsab; reflexivity).
   eapply FP_exteq; [ | | exact (FP_scaling K C (1 / k) _ _ Ri Hi (FP_gauss K C))]; intros; cbv beta.
-  - f_equal. unfold k. transitivity (- (sp * sp) * (1 / (a * sp) * t) * (1 / (a * sp) * t)); [rewrite Hsp; reflexivity|]. field. split; assumption.
-  - rewrite (c_rabs_inv C k Rk Hk). unfold k at 2. rewrite (c_rabs_mul C _ _ Ra Rs), Hab, Hsab. oevs. fold sp.
+  - apply f_equal. transitivity (- (sp * sp) * (1 / k * t) * (1 / k * t)); [rewrite Hsp; reflexivity | unfold k; field; nz].
+  - rewrite (c_rabs_inv C k Rk Hk), Hrk. oevs. fold sp.
     replace (- pi * (f / (1 / k)) * (f / (1 / k))) with (- (pi * a * (pi * a * 1) * (f * (f * 1)))).
-    + field. split; assumption.
-    + unfold k. transitivity (- (sp * sp) * (f * (a * sp)) * (f * (a * sp))); [rewrite <- Hsp; ring | rewrite Hsp; field; split; assumption]. Qed.
+    + unfold k. field. nz.
+    + rewrite <- Hsp. unfold k. field. nz. Qed.
 End OSound.
